@@ -188,7 +188,7 @@ PROPS = {
     "C12": {
         "rules": [panics.rule_panic(("B",)), annot.rule_annot_check, annot.rule_annot_freevars, shape.rule_shape,
                   traversal.rule_trav(["fun::typing::check::Check"]), wiring.rule_wire_intra, hygiene.rule_fvscope, shrinking.rule_cutvar, traversal.rule_siblings, formatting.rule_nameprint, typing_rules.rule_tywf,
-                  linear.rule_linear_subst, linear.rule_linear_ctx, panics.rule_idxguard, fresh.rule_eta, typing_rules.rule_tyrule],
+                  linear.rule_linear_subst, linear.rule_linear_ctx, panics.rule_idxguard, fresh.rule_eta, typing_rules.rule_tyrule, hygiene.rule_seed],
         "text": "'No internal failure' clause: every panic-capable site reachable from the post-check stage entry points is audited, "
                 "and the annotation/shape classes are discharged by checked rules rather than trusted: Check sets every annotation on "
                 "every Ok path and visits every subterm (R-ANNOT, R-TRAV), free-variable and closure-environment annotations are set "
@@ -206,7 +206,7 @@ PROPS = {
         "assumptions": ["behavioural equivalence itself is the conjunction of C02-C06, C13, C14, C20 and of semantic facts not decided statically"],
     },
     "C18": {
-        "rules": [panics.rule_panic(("A", "B")), panics.rule_gact, termination.rule_descent, termination.rule_loops, panics.rule_span, panics.rule_idxguard, hygiene.rule_fvscope, typing_rules.rule_tywf, typing_rules.rule_tyrule],
+        "rules": [panics.rule_panic(("A", "B")), panics.rule_gact, termination.rule_descent, termination.rule_loops, panics.rule_span, panics.rule_idxguard, hygiene.rule_fvscope, typing_rules.rule_tywf, typing_rules.rule_tyrule, formatting.rule_nameprint],
         "text": "Panic-site closure: every panic-capable construct reachable in the resolved whole-workspace call graph from the "
                 "parser, the type checker and every later stage entry point is enumerated and must be an audited row; zone A "
                 "(everything reachable from parse_module/parse_term/Program::check, including all 399 grammar actions) accepts "
